@@ -774,9 +774,16 @@ class Application(Generic[_AppResult]):
                             await self.renderer.wait_for_cpr_responses()
 
                         # Wait for the run-in-terminals to terminate.
-                        previous_run_in_terminal_f = self._running_in_terminal_f
+                        # (Loop, because new calls can be chained while we
+                        # are waiting.)
+                        while True:
+                            previous_run_in_terminal_f = self._running_in_terminal_f
 
-                        if previous_run_in_terminal_f:
+                            if (
+                                previous_run_in_terminal_f is None
+                                or previous_run_in_terminal_f.done()
+                            ):
+                                break
                             await previous_run_in_terminal_f
 
                         # Store unprocessed input as typeahead for next time.
